@@ -74,14 +74,20 @@ def step (j : Json) : Option String := do
     | some ss, some as =>
       let py := pyRun vars ⟨data, dvs.map (·.2)⟩ ops
       let pr := progRun vars ⟨hdr ++ data, dvs.map fun (f, v) => (f, encLE f.width (ofSigned f.width v))⟩ ops
+      let readAll (st : PyState) : String :=
+        match (List.range vars.length).mapM (pyRead vars st) with
+        | some vs => commaInts vs
+        | none => "-"
       match pr with
       | none => pure "bad-index"
       | some p =>
         let pyS := match py with
-          | some s => s!"py={hexOfBytes s.data} pyv={commaInts s.dvs}"
-          | none => "py=struct-error pyv=-"
+          | some s => s!"py={hexOfBytes s.data} pyv={commaInts s.dvs} reads={readAll s}"
+          | none => "py=struct-error pyv=- reads=-"
+        -- what Python's get sees in the frame that came back from the program (fast_update)
+        let back : PyState := ⟨p.frame.drop hdr.length, []⟩
         pure (s!"starts={commaNats ss} addrs={commaNats as} " ++ pyS ++
-              s!" prog={hexOfBytes p.frame} progv={commaInts (p.dvs.map fun (f, mem) => pyGet f mem 0)}")
+              s!" prog={hexOfBytes p.frame} progv={commaInts (p.dvs.map fun (f, mem) => pyGet f mem 0)} reads={readAll back}")
     | _, _ => pure "key-error"
 
 def main : IO Unit := driverMain step
